@@ -30,7 +30,10 @@ static H10 gen_h10(Rng& rng) {
   H10 h;
   LabCase lc = gen_labcase(rng, 12, true, false, true);
   h.spec = lc.spec;
-  h.spec.sources[0].second = "import \"tests\"\nimport \"pe\"\n" + h.spec.sources[0].second + C10_EXTRA +
+  // in a third of the histories more than 64 strings precede the limit-hitting ones (per-string bitmasks then span several words)
+  std::string pad;
+  if (rng.chance(1, 3)) { pad = "rule padding {\n  strings:\n"; for (int i = 0; i < 70; i++) pad += "    $p" + std::to_string(i) + " = \"pad_" + std::to_string(i) + "_x\"\n"; pad += "  condition:\n    any of them\n}\n"; }
+  h.spec.sources[0].second = "import \"tests\"\nimport \"pe\"\n" + h.spec.sources[0].second + pad + C10_EXTRA +
     "rule md { condition: tests.module_data == \"mdata-1\" }\nrule ep { condition: entrypoint >= 0 }\nrule fsz { condition: filesize > 1000 }\nrule pesec { condition: pe.number_of_sections > 2 }\n";
   h.bufs.resize(B_NKINDS);
   h.bufs[B_TEXT] = lc.buffers[0] + " bystander";
